@@ -702,7 +702,13 @@ pub fn c10(base_seed: u64, i: u64, g: &GenCtx) -> Plan {
             let ops = client_ops(&mut r, h, &mut data, &mut slot, &mixa, false, max);
             tasks[t].extend(ops);
             if c + 1 < clients {
-                tasks[t].push(Op::Reset { h, via: ResetVia::Inherent });
+                // reset() itself, or one of the trait methods that delegate to it
+                match r.below(6) {
+                    0 => tasks[t].push(Op::Reset { h, via: ResetVia::DigestReset }),
+                    1 => tasks[t].push(Op::Finalize { h, via: FinVia::TraitReset }),
+                    2 => tasks[t].push(Op::FinalizeXof { h, r: None, n: xof_len(&mut r), via: FinVia::TraitReset }),
+                    _ => tasks[t].push(Op::Reset { h, via: ResetVia::Inherent }),
+                }
                 if ntasks > 1 && r.chance(1, 3) {
                     let o = (t + 1) % ntasks;
                     tasks[t].push(Op::Send { slot: h, to: o });
@@ -1515,4 +1521,346 @@ pub fn c18_mixed(base_seed: u64, i: u64, g: &GenCtx) -> Plan {
     let mut p = multi("C18", "c18-mixed-c", seed, Cfg { pool_width: 1, ..Cfg::default() }, data, tasks, &mut r);
     p.schedule = schedule(&mut r);
     p
+}
+
+// ---------------------------------------------------------------------------------------------
+// C12 / C13: b3sum as a process in a sandbox directory
+
+fn hexs(b: &[u8]) -> String {
+    crate::model::hex(b)
+}
+
+const PLAIN_NAMES: &[&[u8]] = &[b"a", b"b", b"c.txt", b"data.bin", b"x y", b"Z"];
+const NASTY_PARTS: &[&[u8]] = &[
+    b"a", b"b", b"file", b" ", b"  ", b") = ", b"BLAKE3 (", b"\\", b"\n", b"\r", b"\\n", b"\xc3\xa9", b"\xe6\x97\xa5",
+    b"\xf0\x9f\x98\x80", b"\xff", b"\xc3", b"\xef\xbf\xbd", b".", b"=", b"(", b")", b"'", b"\"", b"*", b"\t", b"0", b"f",
+];
+
+pub fn nasty_path(r: &mut Rng) -> Vec<u8> {
+    loop {
+        let n = 1 + r.usize_below(5);
+        let mut p = Vec::new();
+        for _ in 0..n {
+            p.extend_from_slice(*r.pick(NASTY_PARTS));
+        }
+        if p.is_empty() || p[0] == b'-' || p == b"." || p == b".." || p.len() > 200 || p.starts_with(b"checkfile.") {
+            continue;
+        }
+        return p;
+    }
+}
+
+fn file_len(r: &mut Rng) -> usize {
+    match r.below(8) {
+        0 => 0,
+        1 => 16383 + r.usize_below(3),
+        2 => 1 + r.usize_below(100),
+        3 => 16384 + r.usize_below(70000),
+        4 => *r.pick(&[1023usize, 1024, 1025, 65536]),
+        _ => r.usize_below(5000),
+    }
+}
+
+fn cli_seek(r: &mut Rng, len: u64) -> Option<u64> {
+    if r.chance(2, 3) {
+        return None;
+    }
+    let p = xof_pos(r);
+    Some(p.min(u64::MAX - len))
+}
+
+pub fn c12_hash(base_seed: u64, i: u64, _g: &GenCtx) -> Plan {
+    let seed = mix(base_seed ^ 0xC12, i);
+    let mut r = Rng::new(seed);
+    let mut data = Vec::new();
+    let mut ops = Vec::new();
+    let nfiles = 1 + r.usize_below(3);
+    let mut paths: Vec<Vec<u8>> = Vec::new();
+    for k in 0..nfiles {
+        let p = if r.chance(1, 4) { nasty_path(&mut r) } else { PLAIN_NAMES[(k + r.usize_below(3)) % PLAIN_NAMES.len()].to_vec() };
+        if paths.contains(&p) {
+            continue;
+        }
+        let len = file_len(&mut r);
+        data.push(data_spec(&mut r, len));
+        ops.push(Op::CliFile { path_hex: hexs(&p), data: data.len() - 1 });
+        paths.push(p);
+    }
+    let n_inv = 1 + r.usize_below(3);
+    for _ in 0..n_inv {
+        let mut f = CliFlags::default();
+        match r.below(5) {
+            0 => {
+                let klen = match r.below(4) {
+                    0 => r.usize_below(41),
+                    _ => 32,
+                };
+                data.push(DataSpec::Random { seed: r.next(), len: klen });
+                f.keyed = Some(data.len() - 1);
+            }
+            1 => {
+                data.push(DataSpec::Random { seed: r.next(), len: r.usize_below(30) });
+                f.derive = Some(data.len() - 1);
+            }
+            _ => {}
+        }
+        if r.chance(1, 2) {
+            f.length = Some(*r.pick(&[0u64, 1, 31, 32, 33, 64, 65, 131, 1000, 10000]));
+        }
+        f.seek = cli_seek(&mut r, f.length.unwrap_or(32));
+        f.no_mmap = r.chance(1, 3);
+        if r.chance(1, 2) {
+            f.num_threads = Some(*r.pick(&[1u8, 2, 16]));
+        }
+        let style = r.below(6);
+        f.raw = style == 0;
+        f.no_names = style == 1;
+        f.tag = style == 2;
+        // which inputs
+        let mut ps: Vec<String> = Vec::new();
+        let mut stdin = None;
+        let k = if f.raw && r.chance(9, 10) { 1 } else { 1 + r.usize_below(paths.len().max(1)) };
+        for _ in 0..k {
+            match r.below(10) {
+                0 => ps.push(hexs(b"no-such-file")),
+                1 if f.keyed.is_none() => {
+                    ps.push(hexs(b"-"));
+                    data.push(DataSpec::Random { seed: r.next(), len: r.usize_below(3000) });
+                    stdin = Some(data.len() - 1);
+                }
+                _ => ps.push(hexs(r.pick(&paths[..]).as_slice())),
+            }
+        }
+        if r.chance(1, 15) {
+            ps.clear(); // no file argument: stdin is hashed (or --keyed is refused)
+            if f.keyed.is_none() {
+                data.push(DataSpec::Random { seed: r.next(), len: r.usize_below(3000) });
+                stdin = Some(data.len() - 1);
+            }
+        }
+        if r.chance(1, 25) {
+            f.bogus = Some((*r.pick(&["--no-such-flag", "--length=-1", "--seek=x"])).to_string());
+        }
+        ops.push(Op::CliHash { paths: ps, flags: f, stdin, save: None });
+    }
+    single("C12", "c12-hash", seed, Cfg::default(), data, Level::Detect, ops)
+}
+
+fn damage(r: &mut Rng) -> Damage {
+    match r.below(10) {
+        0 => Damage::Crlf,
+        1 | 2 | 3 | 4 => Damage::Line {
+            line: r.usize_below(8),
+            pos: match r.below(4) {
+                0 => 58 + r.usize_below(9),
+                1 => r.usize_below(4),
+                _ => r.usize_below(120),
+            },
+            edit: r.below(4) as u8,
+            ch: (*r.pick(&["0", "g", "F", " ", "\\", "\r", "\u{FFFD}", "\0", "é", "日", "😀", ")", "x"])).to_string(),
+        },
+        5 | 6 => {
+            let junk: &[&[u8]] = &[b"", b"garbage", b"0123  x", b"\\", b"BLAKE3 (x) = 00", b"  a", b"\r"];
+            Damage::AppendLine { text_hex: hexs(*r.pick(junk)) }
+        }
+        7 => Damage::TruncateBytes { n: r.usize_below(400) },
+        8 => Damage::InvalidUtf8 { at: r.usize_below(400) },
+        _ => Damage::DropFinalNewline,
+    }
+}
+
+fn check_scenario(r: &mut Rng, prop: &str, family: &str, seed: u64, nasty_p: u64) -> Plan {
+    let mut data = Vec::new();
+    let mut ops = Vec::new();
+    let nfiles = 2 + r.usize_below(4);
+    let mut paths: Vec<Vec<u8>> = Vec::new();
+    // pairs engineered to collide under a sloppy parser
+    let pairs: &[(&[u8], &[u8])] = &[(b"a  b", b"a b"), (b"x\ny", b"x\\ny"), (b"q) = r", b"q"), (b"BLAKE3 (z", b"z"), (b"t\xff", b"t\xfe"), (b"cr\r", b"cr")];
+    if r.below(100) < nasty_p {
+        let (a, b) = *r.pick(pairs);
+        paths.push(a.to_vec());
+        paths.push(b.to_vec());
+    }
+    while paths.len() < nfiles {
+        let p = if r.below(100) < nasty_p { nasty_path(r) } else { PLAIN_NAMES[r.usize_below(PLAIN_NAMES.len())].to_vec() };
+        if !paths.contains(&p) {
+            paths.push(p);
+        }
+    }
+    for p in &paths {
+        let len = file_len(r);
+        data.push(DataSpec::Random { seed: r.next(), len });
+        ops.push(Op::CliFile { path_hex: hexs(p), data: data.len() - 1 });
+    }
+    let ncf = 1 + r.usize_below(2);
+    let mut cfs = Vec::new();
+    let seek = if r.chance(1, 8) { Some(xof_pos(r).min(u64::MAX - 32)) } else { None };
+    for c in 0..ncf {
+        let mut f = CliFlags { tag: r.chance(1, 2), no_mmap: r.chance(1, 3), seek, ..CliFlags::default() };
+        if r.chance(1, 3) {
+            f.num_threads = Some(*r.pick(&[1u8, 2, 16]));
+        }
+        let mut ps: Vec<String> = paths.iter().filter(|_| r.chance(3, 4)).map(|p| hexs(p)).collect();
+        if ps.is_empty() {
+            ps.push(hexs(&paths[0]));
+        }
+        ops.push(Op::CliHash { paths: ps, flags: f, stdin: None, save: Some(c) });
+        cfs.push(c);
+    }
+    // faults between the two runs
+    let nf = r.usize_below(4);
+    for _ in 0..nf {
+        if r.chance(1, 2) {
+            ops.push(Op::CliFsFault { path_hex: hexs(r.pick(&paths[..]).as_slice()), kind: r.below(4) as u8 });
+        } else {
+            ops.push(Op::CliDamage { cf: *r.pick(&cfs), kind: damage(r) });
+        }
+    }
+    let mut f = CliFlags { no_mmap: r.chance(1, 3), seek, ..CliFlags::default() };
+    if r.chance(1, 3) {
+        f.num_threads = Some(*r.pick(&[1u8, 2, 16]));
+    }
+    if r.chance(1, 12) {
+        cfs.push(77); // a checkfile that does not exist
+    }
+    let via_stdin = cfs.len() == 1 && r.chance(1, 5);
+    ops.push(Op::CliCheck { cfs, flags: f, quiet: r.chance(1, 4), via_stdin });
+    single(prop, family, seed, Cfg::default(), data, Level::Detect, ops)
+}
+
+pub fn c12_check(base_seed: u64, i: u64, _g: &GenCtx) -> Plan {
+    let seed = mix(base_seed ^ 0xC12C, i);
+    let mut r = Rng::new(seed);
+    check_scenario(&mut r, "C12", "c12-check", seed, 15)
+}
+
+pub fn c13_e2e(base_seed: u64, i: u64, _g: &GenCtx) -> Plan {
+    let seed = mix(base_seed ^ 0xC13E, i);
+    let mut r = Rng::new(seed);
+    check_scenario(&mut r, "C13", "c13-e2e", seed, 85)
+}
+
+pub fn c13_parse(base_seed: u64, i: u64, _g: &GenCtx) -> Plan {
+    let seed = mix(base_seed ^ 0xC13, i);
+    let mut r = Rng::new(seed);
+    let mut ops = Vec::new();
+    let n = 1 + r.usize_below(4);
+    for _ in 0..n {
+        let p = if r.chance(1, 5) { PLAIN_NAMES[r.usize_below(PLAIN_NAMES.len())].to_vec() } else { nasty_path(&mut r) };
+        let (tag, crlf) = (r.chance(1, 2), r.chance(1, 3));
+        ops.push(Op::PathRoundTrip { path_hex: hexs(&p), tag, crlf });
+        if r.chance(1, 3) {
+            ops.push(Op::ParseMutations { path_hex: hexs(&p), tag, crlf });
+        }
+    }
+    single("C13", "c13-parse", seed, Cfg::default(), Vec::new(), Level::Detect, ops)
+}
+
+/// C11 file half on special files
+pub fn c11_special(base_seed: u64, i: u64, _g: &GenCtx) -> Plan {
+    let seed = mix(base_seed ^ 0x5EC1, i);
+    let mut r = Rng::new(seed);
+    // the large sysfs file is expensive: rarely
+    let kind = if r.chance(1, 40) { 4 } else { *r.pick(&[0u8, 1, 2, 3, 5, 6]) };
+    single("C11", "c11-special", seed, Cfg::default(), Vec::new(), Level::Detect, vec![Op::FileKinds { kind }])
+}
+
+/// C11: Write::write / write_all / io::copy with very large single buffers
+pub fn c11_bigwrite(base_seed: u64, i: u64, g: &GenCtx) -> Plan {
+    let seed = mix(base_seed ^ 0xB16, i);
+    let mut r = Rng::new(seed);
+    let mib = 1usize << 20;
+    let len = match r.below(6) {
+        0 => mib + 1 + r.usize_below(5000),
+        1 => mib - r.usize_below(3),
+        2 => 2 * mib + r.usize_below(mib),
+        3 => 65536 * (1 + r.usize_below(40)) + r.usize_below(3),
+        _ => r.usize_below(if g.tier_thorough { 8 * mib } else { 3 * mib }),
+    };
+    let mut data = vec![DataSpec::Random { seed: r.next(), len }];
+    let m = mode(&mut r, &mut data);
+    let via = match r.below(4) {
+        0 => AbsorbVia::Write,
+        1 => AbsorbVia::WriteAll,
+        2 => AbsorbVia::IoCopy(ReaderScript { steps: vec![], junk: false, tail_chunk: 0 }),
+        _ => AbsorbVia::Update,
+    };
+    let ops = vec![
+        Op::NewHasher { slot: 0, mode: m, via: NewVia::Inherent },
+        Op::Absorb { h: 0, data: 0, off: 0, len, via },
+        Op::Count { h: 0 },
+        Op::Finalize { h: 0, via: FinVia::Inherent },
+    ];
+    single("C11", "c11-bigwrite", seed, Cfg::default(), data, level(&mut r, g.avail), ops)
+}
+
+
+/// C08: update_mmap_rayon on files large enough for any internal windowing (few, expensive runs)
+pub fn c08_bigmmap(base_seed: u64, i: u64, g: &GenCtx) -> Plan {
+    let seed = mix(base_seed ^ 0xB166, i);
+    let mut r = Rng::new(seed);
+    let mib = 1usize << 20;
+    let len = match r.below(5) {
+        0 => 8 * mib + 1 + r.usize_below(5000),
+        1 => 16 * mib + r.usize_below(mib),
+        2 => (1 + r.usize_below(if g.tier_thorough { 40 } else { 20 })) * mib + r.usize_below(3),
+        3 => 4 * mib + r.usize_below(4 * mib),
+        _ => mib + r.usize_below(12 * mib),
+    };
+    let mut data = vec![DataSpec::Random { seed: r.next(), len }];
+    let m = mode(&mut r, &mut data);
+    let via = match r.below(4) {
+        0 => AbsorbVia::Mmap,
+        1 => AbsorbVia::Rayon { width: *r.pick(&[2u8, 4, 16]) },
+        _ => AbsorbVia::MmapRayon,
+    };
+    let ops = vec![
+        Op::NewHasher { slot: 0, mode: m, via: NewVia::Inherent },
+        Op::Absorb { h: 0, data: 0, off: 0, len, via },
+        Op::Finalize { h: 0, via: FinVia::Inherent },
+        Op::FinalizeXof { h: 0, r: None, n: 131, via: FinVia::Inherent },
+    ];
+    single("C08", "c08-bigmmap", seed, Cfg::default(), data, level(&mut r, g.avail), ops)
+}
+
+/// C18: long reader streams on several tasks at once (state kept across many reads of one stream)
+pub fn c18_streams(base_seed: u64, i: u64, g: &GenCtx) -> Plan {
+    let seed = mix(base_seed ^ 0x57EA, i);
+    let mut r = Rng::new(seed);
+    let mib = 1usize << 20;
+    let ntasks = 2 + r.usize_below(2);
+    let mut data = Vec::new();
+    let mut tasks = Vec::new();
+    let mut slot = 0;
+    for _ in 0..ntasks {
+        let mut ops = Vec::new();
+        let streams = 1 + r.usize_below(2);
+        for _ in 0..streams {
+            let len = match r.below(3) {
+                0 => 4 * mib + 1 + r.usize_below(2 * mib),
+                1 => r.usize_below(mib),
+                _ => mib + r.usize_below(if g.tier_thorough { 8 * mib } else { 5 * mib }),
+            };
+            data.push(DataSpec::Random { seed: r.next(), len });
+            let di = data.len() - 1;
+            let h = slot;
+            slot += 1;
+            ops.push(Op::NewHasher { slot: h, mode: mode(&mut r, &mut data), via: NewVia::Inherent });
+            let script = ReaderScript { steps: vec![], junk: r.chance(1, 2), tail_chunk: *r.pick(&[0u32, 65536, 1 << 20, 70000]) };
+            ops.push(Op::Absorb { h, data: di, off: 0, len, via: reader_via(&mut r, script) });
+            ops.push(Op::Finalize { h, via: FinVia::Inherent });
+        }
+        tasks.push(TaskPlan { level: level(&mut r, g.avail), ops });
+    }
+    let mut p = multi("C18", "c18-streams", seed, Cfg { pool_width: 1, ..Cfg::default() }, data, tasks, &mut r);
+    // long runs: sticky schedules so that each task makes real progress between switches
+    p.schedule = Schedule::Gen { kind: *r.pick(&[SchedKind::Sticky { switch: 26 }, SchedKind::Sticky { switch: 3 }, SchedKind::Bursty { points: 3, horizon: 600 }]), seed: r.next() };
+    p
+}
+
+pub fn c04_giant(base_seed: u64, i: u64, g: &GenCtx) -> Plan {
+    as_c04(c09_giant(base_seed ^ 0x4004, i, g), "c04-c09giant")
+}
+pub fn c04_cluster(base_seed: u64, i: u64, g: &GenCtx) -> Plan {
+    as_c04(c09(base_seed ^ 0x4004, i, g), "c04-c09")
 }
